@@ -73,6 +73,8 @@ pub enum QOp {
     CloneEq,
     /// typed accessors with a user-declared key (`Build_Id`): insert / get / contains / remove
     UserTyped(u8, String),
+    /// provided iterator methods (nth, nth_back, count, last, rev + skip, step_by, take + rev, fold) on iter() / iter_mut()
+    IterMethod(u8, u8, bool),
 }
 
 /// A typed qualifier declared outside the library, with a mixed-case key.
@@ -486,6 +488,64 @@ fn step(q: &mut Qualifiers, m: &mut Model, op: &QOp) -> Result<(), String> {
             q.remove_typed::<RepositoryUrl>();
             m.remove("repository_url");
         },
+        QOp::IterMethod(kind, k, mutable) => {
+            let want_all: Vec<(String, String)> = m.iter().map(|(a, b)| (a.clone(), b.clone())).collect();
+            let k = *k as usize % 5;
+            let pick = |v: Vec<(String, String)>| v;
+            let want: Vec<(String, String)> = match kind % 8 {
+                0 => want_all.iter().cloned().nth(k).into_iter().collect(),
+                1 => want_all.iter().cloned().rev().nth(k).into_iter().collect(),
+                2 => vec![(want_all.len().to_string(), String::new())],
+                3 => want_all.last().cloned().into_iter().collect(),
+                4 => want_all.iter().cloned().rev().skip(k).collect(),
+                5 => want_all.iter().cloned().step_by(k + 1).collect(),
+                6 => want_all.iter().cloned().take(k + 1).rev().collect(),
+                _ => {
+                    // nth from the front, then the rest from the back
+                    let mut it = want_all.iter().cloned();
+                    let mut out: Vec<(String, String)> = it.nth(k).into_iter().collect();
+                    out.extend(it.rev());
+                    out
+                },
+            };
+            let conv = |k: &purl::qualifiers::QualifierKey, v: &str| (k.as_str().to_string(), v.to_string());
+            let got: Vec<(String, String)> = if *mutable {
+                let it = q.iter_mut();
+                match kind % 8 {
+                    0 => { let mut it = it; it.nth(k).map(|(a, b)| conv(a, b)).into_iter().collect() },
+                    1 => { let mut it = it; it.nth_back(k).map(|(a, b)| conv(a, b)).into_iter().collect() },
+                    2 => vec![(it.count().to_string(), String::new())],
+                    3 => it.last().map(|(a, b)| conv(a, b)).into_iter().collect(),
+                    4 => it.rev().skip(k).map(|(a, b)| conv(a, b)).collect(),
+                    5 => it.step_by(k + 1).map(|(a, b)| conv(a, b)).collect(),
+                    6 => it.take(k + 1).rev().map(|(a, b)| conv(a, b)).collect(),
+                    _ => {
+                        let mut it = it;
+                        let mut out: Vec<(String, String)> = it.nth(k).map(|(a, b)| conv(a, b)).into_iter().collect();
+                        out.extend(it.rev().map(|(a, b)| conv(a, b)));
+                        out
+                    },
+                }
+            } else {
+                let it = q.iter();
+                match kind % 8 {
+                    0 => { let mut it = it; it.nth(k).map(|(a, b)| conv(a, b)).into_iter().collect() },
+                    1 => { let mut it = it; it.nth_back(k).map(|(a, b)| conv(a, b)).into_iter().collect() },
+                    2 => vec![(it.count().to_string(), String::new())],
+                    3 => it.last().map(|(a, b)| conv(a, b)).into_iter().collect(),
+                    4 => it.rev().skip(k).map(|(a, b)| conv(a, b)).collect(),
+                    5 => it.step_by(k + 1).map(|(a, b)| conv(a, b)).collect(),
+                    6 => it.take(k + 1).rev().map(|(a, b)| conv(a, b)).collect(),
+                    _ => {
+                        let mut it = it;
+                        let mut out: Vec<(String, String)> = it.nth(k).map(|(a, b)| conv(a, b)).into_iter().collect();
+                        out.extend(it.rev().map(|(a, b)| conv(a, b)));
+                        out
+                    },
+                }
+            };
+            expect_eq!(pick(got), want, what);
+        },
         QOp::UserTyped(which, v) => {
             // a typed key declared by the user, in mixed case: typed accessors must agree with the plain ones
             match which % 4 {
@@ -797,6 +857,12 @@ fn universe_ops() -> Vec<QOp> {
     for w in 0..4u8 {
         v.push(QOp::UserTyped(w, "x".into()));
     }
+    for kind in 0..8u8 {
+        for k in 0..3u8 {
+            v.push(QOp::IterMethod(kind, k, false));
+            v.push(QOp::IterMethod(kind, k, true));
+        }
+    }
     v
 }
 
@@ -924,6 +990,7 @@ fn gqop() -> BoxedStrategy<QOp> {
         1 => Just(QOp::KeyViews),
         1 => Just(QOp::CloneEq),
         2 => (any::<u8>(), gv()).prop_map(|(w, v)| QOp::UserTyped(w, v)),
+        3 => (any::<u8>(), any::<u8>(), any::<bool>()).prop_map(|(a, b, c)| QOp::IterMethod(a, b, c)),
     ]
     .boxed()
 }
